@@ -1024,6 +1024,10 @@ def gen_c13(rng, size=50):
     for m in members:
         m["tf"] = shared_tf
         m["form"] = rng.choice(["obj", "obj", "dict"])
+    if cfg["tf"] and rng.random() < 0.5:
+        # the other members name the Hexital's own timeframe explicitly: a second manager over the same buckets
+        for m in members[1:]:
+            m["tf"] = cfg["tf"]
     if cfg["ha"] and shared_tf:
         cfg["ha"] = False  # that combination is C08's known finding, not an interference
     need = max([v for m in members for k, v in m["params"].items() if "period" in k and isinstance(v, int)] + [2])
@@ -1461,9 +1465,14 @@ def _state(obj, target):
     if target == "hexital":
         cands = {k: candle_tuples(v) for k, v in obj.get_candles().items()}
         cols = {n: deepcopy(i.as_list()) for n, i in obj.indicators.items()}
+        lists = obj.get_candles()
     else:
         cands = {"own": candle_tuples(obj.candles)}
         cols = {obj.name: deepcopy(obj.as_list())}
+        lists = {"own": obj.candles}
+    # which readings each candle of each timeframe carries (a reading leaking into another timeframe's candles shows here)
+    for k, v in lists.items():
+        cols[f"keys[{k}]"] = [[sorted(c.indicators), sorted(c.sub_indicators)] for c in v]
     return cands, cols
 
 
